@@ -203,7 +203,7 @@ fn family<T: Clone + PartialOrd + Debug, N: ArrayLength>(ctx: &mut Ctx, tname: &
 }
 
 macro_rules! for_ns {
-    ([$($n:ty),*], $N:ident => $body:block) => { $( { type $N = $n; $body } )* };
+    ([$($n:ty),*], $N:ident => $body:block) => { $( { type $N = $n; if <$N as generic_array::typenum::Unsigned>::USIZE <= vcommon::maxn() { $body } } )* };
 }
 
 pub fn run(ctx: &mut Ctx) {
